@@ -36,6 +36,8 @@ AMBIENT = [
     (re.compile(r"^std::time::(SystemTime|Instant)::now"), "clock"),
     (re.compile(r"^std::time::SystemTime::"), "clock"),
     (re.compile(r"^std::process::id$"), "process id"),
+    (re.compile(r"^std::fs::Metadata::(modified|created|accessed)$"), "file time stamp (what is generated would depend on the history of the directory)"),
+    (re.compile(r"^std::os::unix::fs::MetadataExt::|^<std::fs::Metadata as std::os::unix::fs::MetadataExt>::"), "file metadata (inode times, owner)"),
     (re.compile(r"^std::thread::"), "thread"),
     (re.compile(r"^(rand|getrandom|fastrand)::"), "random"),
     (re.compile(r"^std::hash::random::RandomState::new|^std::collections::hash::map::RandomState::new"), "random hash state"),
